@@ -2,7 +2,7 @@
 (* Validates fault-injection runs of the real containers (vector, buffer, queue,
    string).  One event = one public call executed while the allocator fails
    according to a plan, followed by the same call with a healthy allocator and
-   the destruction of the container:
+   the destruction of the container (or, marked noretry, by the destruction alone):
      pre, reqs (every allocator request of the faulted call), failed,
      fail (return value class and state after the faulted call),
      retry (outcome and contents), expected (contents the specification of the
@@ -20,7 +20,8 @@ Accept(e) ==
   /\ e.fail.seq = e.pre.seq /\ e.fail.num = Len(e.pre.seq) /\ e.fail.num <= e.fail.mem   \* FailureIsAtomic
   /\ e.fail.siz = e.pre.siz
   /\ (IF "after" \in DOMAIN e.pre THEN (e.pre.after = 0 => e.fail.after = 0) ELSE TRUE)   \* a terminated string stays terminated
-  /\ e.retry.ok = 1 /\ e.retry.seq = e.expected             \* RetrySucceeds
+  \* RetrySucceeds (runs marked noretry destroy the container right after the failed call instead)
+  /\ ("noretry" \in DOMAIN e \/ (e.retry.ok = 1 /\ e.retry.seq = e.expected))
   /\ e.leak = <<>> /\ e.badfree = 0                         \* NoLeak, every block released exactly once
 
 TraceInit == /\ n = 0 /\ mem = 0 /\ blk = 0 /\ live = {} /\ phase = "idle" /\ need = 0
